@@ -199,8 +199,17 @@ void Groups::evalArguments( int argc, char* argv[]) noexcept( false)
       auto  result = Handler::ArgResult::unknown;
       // evalSingleArgument() may advance the iterator to the value
       const bool  is_argument = ai->mElementType != detail::ArgListElement::Type::value;
+      // a free value belongs to the argument identified last if that accepts
+      // multiple values: offer it to the handler of that argument first
+      // (pass 0), then to the other handlers (pass 1), e.g. for a positional
+      // argument
+      for (int pass = is_argument ? 1 : 0; (pass < 2) && (result == Handler::ArgResult::unknown); ++pass)
       for (auto & stored_group : mArgGroups)
       {
+         if (!is_argument
+             && ((stored_group.mpArgHandler->mpLastArg != nullptr) != (pass == 0)))
+            continue;   // for
+
          result = stored_group.mpArgHandler->evalSingleArgument( ai, alp.end());
          if (result != Handler::ArgResult::unknown)
          {
